@@ -1,3 +1,4 @@
+import MaestroVerif.Lemmas.ConductorLemmas
 import MaestroVerif.Lemmas.ExecDemo
 
 /-!
@@ -61,5 +62,27 @@ theorem C07_waits_for_drain (cfg : Cfg) (g : G) (p : PollIn) (hd : cfg.dry = fal
 example : (run demoCfg demoOps).isCanceled = true ∧ (run demoCfg demoOps).cancelOk = true ∧
     verdict demoCfg (run demoCfg demoOps) = .CANCELLED :=
   ⟨demo_state.2.2.2.1, C07_never_launched_after_cancel demo_wf demo_reachable, demo_state.2.2.2.2.2⟩
+
+/-! ### the conductor loop (`Model/Conductor.lean`, `Conductor.monitor_study`) -/
+
+/-- **the request is acted on before anything else is launched**: in the iteration that finds the
+cancel lock file (and gets its file lock) `cancel_study` is called and the file removed *before*
+`execute_ready_steps`, which therefore runs with the cancel flag set and (`C07_no_submit_after`)
+submits nothing -/
+theorem C07_request_acted_on_before_polling (cfg : Cfg) (s : Conductor.CS) (it : Conductor.Iter)
+    (hl : it.lock = true) (ha : it.acquire = true) :
+    (Conductor.iter cfg s it).1.g.isCanceled = true ∧
+    ∃ tail, (Conductor.iter cfg s it).1.trace =
+      s.trace ++ [.lockCheck true, .lockAcquire true, .cancelStudy, .lockRemove, .poll] ++ tail :=
+  Conductor.cancel_observed cfg s it hl ha
+
+/-- a time-out on the lock of the request file loses nothing: the file stays (the next iteration
+sees the request again) -/
+theorem C07_request_kept_on_lock_timeout (cfg : Cfg) (s : Conductor.CS) (it : Conductor.Iter)
+    (hl : it.lock = true) (ha : it.acquire = false) :
+    Conductor.CEv.lockRemove ∉ Conductor.iterTrace it.lock it.acquire (Conductor.iter cfg s it).2 ∧
+    Conductor.CEv.cancelStudy ∉ Conductor.iterTrace it.lock it.acquire (Conductor.iter cfg s it).2 ∧
+    (Conductor.iter cfg s it).1.g = (Exec.poll cfg s.g it.answer).1 :=
+  Conductor.request_kept_on_timeout cfg s it hl ha
 
 end MaestroVerif.C07
